@@ -221,7 +221,9 @@ ReaderModel(b) ==
 ReaderDefined(b) == LET r == ReaderModel(b) IN r.out = "ok" => (r.end <= Len(b) /\ EbAssumption(b, CountZeros(b, 0)))
 
 (* ======================= content: what the properties compare ======================= *)
-ContentParam(p) == [n |-> Upper(p.n), d |-> p.d, l |-> p.l, t |-> p.t, dim |-> p.dim, v |-> p.v]
+\* (string cells are space padded in the file: trailing spaces of a string value are not representable, DESIGN appendix A.6)
+ContentParam(p) == [n |-> Upper(p.n), d |-> p.d, l |-> p.l, t |-> p.t, dim |-> p.dim,
+                    v |-> IF p.t = TCHAR THEN [i \in 1..Len(p.v) |-> TrimRight(p.v[i])] ELSE p.v]
 ContentGroup(g) == [n |-> Upper(g.n), d |-> g.d, l |-> g.l, p |-> [k \in 1..Len(g.p) |-> ContentParam(g.p[k])]]
 NamedGroups(grp) == SelectSeq(grp, LAMBDA g : ~IsPlaceholder(g))
 \* Parameters whose value is a function of the file layout or of the data (recomputed by every save / load), and
